@@ -358,7 +358,10 @@ fn hostile_env_value() -> std::ffi::OsString {
     std::ffi::OsString::from_vec(b"caf\xe9 \xff\xfe".to_vec())
 }
 
+static CHILDREN_SPAWNED: AtomicU64 = AtomicU64::new(0);
+
 fn spawn_child(args: &[String]) -> std::io::Result<std::process::Child> {
+    CHILDREN_SPAWNED.fetch_add(1, Ordering::Relaxed);
     let exe = std::env::current_exe()?;
     Command::new(exe)
         .args(args)
@@ -1277,6 +1280,7 @@ fn run_parent(seed: u64, tier: Tier, runs: u64, workers: usize, want_log_hash: b
             "class_A_refusals_survived_as_value_or_error": st.trials_with_handled_class_a,
             "child_deaths_after_class_B_discarded": st.died_class_b_discarded,
             "watchdog_discards": st.timed_out_discarded,
+            "child_processes_started_with_a_non_unicode_environment_variable": CHILDREN_SPAWNED.load(Ordering::Relaxed),
         },
         "fault_free": {"trials": st.fault_free_trials, "refusals": st.fault_free_refusals},
         "peak_live_bytes_max": st.peak_max,
@@ -1297,7 +1301,7 @@ fn run_parent(seed: u64, tier: Tier, runs: u64, workers: usize, want_log_hash: b
         "real_vs_stub": {
             "real": ["succinctly::jq::parse", "jq::eval::<Vec<u64>, JqSemantics>", "jq::eval_generic::eval_with_cursor", "JsonIndex::build",
                      "eval_generic::{to_owned,to_owned_cursor}, LazySeq::materialize_atomic, OwnedValue::to_json (result materialisation and printing)"],
-            "stub": ["the CLI shell (argv/stdin/stdout handling in jq_runner.rs) is not executed", "the global allocator is SimAlloc over the system allocator", "the OS: RLIMIT_AS 8 GiB backstop, 8 MiB thread stack"],
+            "stub": ["the CLI shell (argv/stdin/stdout handling in jq_runner.rs) is not executed", "the global allocator is SimAlloc over the system allocator", "the OS: RLIMIT_AS 8 GiB backstop, 8 MiB thread stack", "the process environment: cleared, plus PATH, HOME=/nonexistent, TZ=UTC and LEGACY_NAME=<bytes that are not valid Unicode>"],
         },
         "exhaustive": false,
     });
